@@ -27,11 +27,15 @@ class IndexedGrammar:
                  start_variable: Any = "S"):
         self.rules = rules
         self.start_variable = start_variable
+        self.non_terminals = set()
+        self.marked = {}
+        self._initialize_marked()
+
+    def _initialize_marked(self):
         # Precompute all non-terminals
-        self.non_terminals = rules.non_terminals
+        self.non_terminals = self.rules.non_terminals
         self.non_terminals.append(self.start_variable)
         self.non_terminals = set(self.non_terminals)
-        # We cache the marked items in case of future update of the query
         self.marked = {}
         # Initialize the marked symbols
         # Mark the identity
@@ -150,6 +154,8 @@ class IndexedGrammar:
         is_empty : bool
             Whether the grammar is empty or not
         """
+        # The rules may have changed since the last call
+        self._initialize_marked()
         # To know when no more modification are done
         was_modified = True
         while was_modified:
